@@ -9,6 +9,7 @@ import (
 	"bytes"
 	"fmt"
 	"math/big"
+	"reflect"
 
 	"cosmossdk.io/math"
 	sdk "github.com/cosmos/cosmos-sdk/types"
@@ -294,9 +295,12 @@ func preWorld(scn Scenario, pre *Node) *World {
 }
 
 func submitterOf(msg any) string {
-	type hasFrom interface{ GetFrom() string }
-	if x, ok := msg.(hasFrom); ok {
-		return x.GetFrom()
+	v := reflect.ValueOf(msg)
+	if v.Kind() == reflect.Ptr {
+		v = v.Elem()
+	}
+	if f := v.FieldByName("From"); f.IsValid() && f.Kind() == reflect.String {
+		return f.String()
 	}
 	return ""
 }
